@@ -566,6 +566,23 @@ class H2Connection:
 
             frame_data = f.serialize_body()
             frame_data = base64.urlsafe_b64encode(frame_data)
+
+            # The server applies these settings as soon as it has read the
+            # header, and nobody acknowledges a header: its response on
+            # stream 1 may already rely on them. So whatever we derive from
+            # our own settings when they are acknowledged has to be in place
+            # now.
+            self.decoder.max_allowed_table_size = (
+                self.local_settings.header_table_size
+            )
+            if self.local_settings.max_header_list_size is not None:
+                self.decoder.max_header_list_size = (
+                    self.local_settings.max_header_list_size
+                )
+            self.max_inbound_frame_size = self.local_settings.max_frame_size
+            self.incoming_buffer.max_frame_size = (
+                self.local_settings.max_frame_size
+            )
         elif settings_header:
             # We have a settings header from the client. This needs to be
             # applied, but we want to throw away the ACK. We do this by
